@@ -67,8 +67,21 @@
 // script's duration is bounded by the dial timeout (15 s) it is charged with. crypto/rand is pinned with
 // simrand.Install, the global math/rand (hole-punch pacing) with rand.Seed (go:debug randseednop=0 below);
 // no scheduler stalls in this stratum. WebTransport / WebSocket / relay stay stubs.
-// Residue: socket loops of quic-go Transports are not compared (quicreuse never drops the reference a
-// SUCCESSFUL dial took on its transport, see goroutines() in world_test.go — reported to the lead, outside C05).
+// Hole-punch sub-stratum (1/2 of QUIC runs): D gets a REAL resource manager (all QUIC runs); two
+// WithSimultaneousConnect(server) callers punch towards p0's node address from instant 0 (cancelled at
+// instants drawn from {50 ms, 1 s, 4.9 s, 4.999 s, 5 s, 5.001 s} or left to the 5 s HolePunchTimeout, half
+// of them retrying at the instant of the failure = a new worker and punch next to the dying one), D listens
+// on QUIC (2/3) or is dial-only with quicreuse's reuseport on | off, p0 itself dials D once or twice at
+// instants from the same grid (in half of the runs exactly when the punch ends; in half of the runs over a
+// clean wire, so that its handshake completes at that very instant), and in half of the runs two overlapping
+// punches to one (address, peer) are handed to the transport directly (the second is turned away with
+// "already punching hole"). Extra residue oracles of every QUIC run, 3 virtual minutes after every caller and
+// side task returned and everything D lists was closed (twice, 30 s apart: a late last handshake datagram):
+// nobody lists a connection to D (one-sided-connection-left), D's resource manager reads zero
+// (resource-scope-not-released), D has no UDP socket besides its listening one (udp-socket-left), and the
+// goroutine comparison includes quic-go's Transport and Conn loops (goroutine-left/other).
+// (2b) is off in this sub-stratum: with inbound connections a caller can be served from the connection table
+// while others still dial.
 //
 // Strata (drawn first): exactness (address sets avoid every documented dial filter, so
 // eligibility = "has a transport and not in back-off") vs filters (unspecified, link-local, own
@@ -101,10 +114,12 @@
 // simnet's deadline timer reaches its `respCh <- runHandshake()` send without a scheduling point
 // and races the context's timer goroutine for real: the run stops being reproducible).
 //
-// Genuine defects found (both repaired in /repo, the classes stay armed):
+// Genuine defects found (all repaired in /repo, the classes stay armed):
 //   - fd-cap-exceeded: limiter.freeFDToken handed a freed FD token out twice when it skipped a
 //     cancelled waiter whose freePeerToken admitted a job from the per-peer wait list (ebe4161);
 //     history: fd-cap-exceeded.replay.json (decoded trace inside; its tape predates later generator changes)
+//   - goroutine-left/other (QUIC stratum): quicreuse never released the transport a SUCCESSFUL dial went out from
+//     when the connection was closed: socket and quic-go loops lived until ConnManager.Close (ee51243)
 //   - all-scripts-fail-but-no-dial-error-in-time: an exiting dial worker's clearAllPeerDials wiped the
 //     jobs its successor had queued on the per-peer wait list; they were never dialed, the caller
 //     waited for its deadline (cb59e91); history: waitlist-wiped.replay.json (decoded trace inside)
@@ -135,6 +150,12 @@
 //	m13 limiter.clearAllPeerDials drops live jobs too (= the defect repaired by cb59e91) -> (3b)
 //	re-checked through the QUIC stratum (violating runs with quic=true): m3 (a real QUIC address dialed twice),
 //	m5, m6 (real dead QUIC addresses over the cap), m12 (over a real QUIC connection)
+//	m15 quic holePunch: last look at connCh outside holePunchingMx (lead's seed C05c/1; the accepted connection is
+//	    orphaned when the hand-over falls between that look and the deferred delete)
+//	                                   -> one-sided-connection-left, resource-scope-not-released, goroutine-left/other
+//	                                      (3 of 8 workers within 45 s: needs the coincidence AND the interleaving)
+//	m16 quic holePunch: DecreaseCount registered after the duplicate check (lead's seed C05c/2)
+//	                                   -> udp-socket-left, goroutine-left/other (every worker within seconds)
 //	m14 dial_worker.dispatchError: the back-off clean-up deletes trackedDials by addr.String() (no-op),
 //	    the refused address stays "failed" for the worker's lifetime (lead's seeded change, scratch worktree)
 //	                                   -> backoff-refusal-after-backoff-ended, backoff-refusal-for-force-direct
